@@ -17,6 +17,7 @@ RULE = (
     "1-3 fields with NaNs x bin edges (on attainable distances, first edge 0 or > 0, empty bins) x Matheron/Cressie x direction "
     "sets (axes, diagonals, oblique; tolerances in (0, pi/2]; bandwidths; overlapping and separated) x grids and masks for the "
     "along-axis estimator; non-trivial = at least one bin with a pair"
+    " Missing values are handed over as NaN, per-field masks or no_data markers (incl. 0); lat-lon estimates are repeated with the same scaled bin array."
 )
 ASSUMPTIONS = ["gsverif/oracles/vario.py enumerates all pairs with libm scalars in lexicographic order (bit-reproducible sums)"]
 LEVEL_TEXT = (
